@@ -31,6 +31,7 @@ from typing import List
 
 from harness import _C07_ref as ref
 from harness import _C07_k4 as _k4
+from harness import _C07_k8 as _k8
 from vsym import ob
 from vsym.ob import Ob
 
@@ -1052,6 +1053,109 @@ def _k7_obligations(tier: str) -> List[Ob]:
     return obs
 
 
+# =========================================================================== K8  rendered location reports
+
+REAL_K8 = (
+    'exactly_lib.common.report_rendering.parts.source_location.file_inclusion_chain',
+    'exactly_lib.common.report_rendering.parts.source_location.source_location_path',
+    'exactly_lib.common.report_rendering.parts.source_location._line_in_optional_file',
+    'exactly_lib.common.report_rendering.parts.source_location._files_and_source_path_leading_to_final_source',
+    'exactly_lib.common.report_rendering.parts.source_location.location_blocks_renderer',
+    'exactly_lib.common.report_rendering.parts.error_info.ErrorInfoRenderer',
+    'exactly_lib.common.report_rendering.parts.failure_info.FailureInfoRenderer',
+    'exactly_lib.common.report_rendering.print_.print_to_str',
+    'exactly_lib.processing.processors._Parser.apply',
+    'exactly_lib.processing.processors._ParseErrorHandler',
+    'exactly_lib.section_document.impl.document_parser.parse_file',
+    'exactly_lib.section_document.impl.document_parser._Impl',
+    'exactly_lib.section_document.impl.file_access.read_source_file',
+    'exactly_lib.section_document.document_parser.DocumentParser._resolve_initial_file_location_info',
+    'exactly_lib.section_document.source_location.FileLocationInfo',
+    'exactly_lib.section_document.source_location.source_location_path_of_non_empty_location_path',
+)
+
+
+def _k8_alts(case):
+    d = case['depth']
+    alts = [case['levels'][i] for i in range(d)] + [()] * (3 - d)
+    return alts + [case['forms'], case['kinds'], case['pads']]
+
+
+def _pre_k8(k0: int, k1: int, k2: int, k3: int, k4: int, k5: int) -> bool:
+    case = ob.case()
+    ks = (k0, k1, k2, k3, k4, k5)
+    for k, alts in zip(ks, _k8_alts(case)):
+        if len(alts) == 0:
+            if k != 0:
+                return False
+        elif not (0 <= k < len(alts)):
+            return False
+    return True
+
+
+def k8_rendered_report(k0: int, k1: int, k2: int, k3: int, k4: int, k5: int) -> bool:
+    """
+    pre: _pre_k8(k0, k1, k2, k3, k4, k5)
+    post: _
+    """
+    case = ob.case()
+    ks = (k0, k1, k2, k3, k4, k5)
+    alts = _k8_alts(case)
+    depth = case['depth']
+    choice = [alts[i][int(ks[i])] for i in range(depth)]
+    form = _k8.FORMS[alts[3][int(k3)]]
+    kind = _k8.KINDS[alts[4][int(k4)]]
+    pad = _k8.PADS[alts[5][int(k5)]]
+    files, chain = _k8.build(depth, choice, kind, pad)
+    root = _k8.write_tree(files)
+    cwd, tag, report = _k8.run_and_render(root, form, kind, depth)
+    expected_tag = {'syntax': 'syntax', 'failure': 'ok', 'missing': 'file-access', 'non-utf8': 'file-access'}[kind]
+    good = tag == expected_tag and _k8.report_is_right(root, cwd, report, chain, files, case.get('oracle_bug'))
+    return ob.post(good)
+
+
+def _k8_obligations(tier: str) -> List[Ob]:
+    obs = []
+    thorough = tier != 'quick'
+
+    def add(name, depth, levels, forms, kinds, pads, expect=ob.CONFIRM, **extra):
+        case = dict(depth=depth, levels=levels, forms=forms, kinds=kinds, pads=pads)
+        case.update(extra)
+        n = len(forms) * len(kinds) * len(pads)
+        for i in range(depth):
+            n *= len(levels[i])
+        obs.append(Ob(
+            name=name, fn='k8_rendered_report', case=case, kernel='K8',
+            bound='case file cases/a.case named %s; chain of %d including files, level i chosen from %s (the paths as '
+                  'written in the directives); in the last file: %s; %s comment lines before the directive / instruction of every file '
+                  '(%d trees): every `PATH, line N` of the printed report is, relative to the current directory, the file of '
+                  'that link, N and the displayed text are the line of the including directive resp. of the instruction'
+                  % (_kinds([_k8.FORMS[f] for f in forms]), depth,
+                     [[_k8.LEVEL_PATHS[i][j] for j in levels[i]] for i in range(depth)],
+                     _kinds([_k8.KINDS[k] for k in kinds]), _kinds([str(_k8.PADS[p]) for p in pads]), n),
+            timeout=120 + 2.0 * n, expect=expect, real=REAL_K8, stubs=(_k4.STUB_INSTRUCTIONS,), selector=True,
+            outside=('the texts of the report other than the location part and the phase line',
+                     'a failing instruction is rendered from an InstructionFailureInfo built by the harness from the parsed '
+                     "element's location (as the executor does); the instruction is not executed",
+                     'a case file that is itself not UTF-8 (read by processors._SourceReader, not by the parser)'),
+            entry='processors._Parser.apply -> ErrorInfoRenderer / FailureInfoRenderer -> print_to_str'))
+
+    all_levels = [tuple(range(len(x))) for x in _k8.LEVEL_PATHS]
+    if not thorough:
+        add('K8:depth0', 0, all_levels, (0, 1, 2), (0, 1), (0,))
+        add('K8:depth1', 1, [(1,), (), ()], (0, 1, 2), (0, 1, 2, 3), (1,))
+        add('K8:depth2', 2, [(0, 1), (1, 2), ()], (0, 1, 2), (0, 2, 3), (0,))
+        add('K8:depth3', 3, [(0, 1), (1, 2), (1,)], (1, 2), (0, 1), (1,))
+    else:
+        add('K8:depth0', 0, all_levels, (0, 1, 2), (0, 1), (0, 1))
+        add('K8:depth1', 1, all_levels, (0, 1, 2), (0, 1, 2, 3), (0, 1))
+        add('K8:depth2', 2, all_levels, (0, 1, 2), (0, 1, 2, 3), (0, 1))
+        for f in (0, 1, 2):
+            add('K8:depth3:%s' % _k8.FORMS[f], 3, all_levels, (f,), (0, 1, 2, 3), (0, 1))
+    add('K8:seeded-oracle-error', 1, [(0, 1), (), ()], (0,), (0,), (0,), expect=ob.REFUTE, oracle_bug='line-numbers-from-zero')
+    return obs
+
+
 # =========================================================================== registry
 
 def obligations(tier: str) -> List[Ob]:
@@ -1063,6 +1167,7 @@ def obligations(tier: str) -> List[Ob]:
     obs += _k4_obligations(tier)
     obs += _k6_obligations(tier)
     obs += _k7_obligations(tier)
+    obs += _k8_obligations(tier)
     return obs
 
 
@@ -1094,6 +1199,8 @@ def _enumerate_inputs(o: Ob, budget: int):
             sizes.append(len(c['perms']))
         pad = [0] * (8 - len(sizes))
         return (tuple(list(t) + pad) for t in itertools.product(*[range(n) for n in sizes]))
+    if o.fn == 'k8_rendered_report':
+        return itertools.product(*[range(max(1, len(a))) for a in _k8_alts(c)])
     raise ValueError(o.fn)
 
 
@@ -1112,7 +1219,7 @@ def selftest(tier: str) -> int:
         fn = getattr(mod, o.fn)
         pre = {'k1_parse_source': _pre_k1, 'k2_line_syntax': _pre_k2, 'k3_document': _pre_k3,
                'k5_act_unescape': _pre_k5, 'k4_test_case': _pre_k4, 'k4_permutation': _pre_k4,
-               'k6_instruction_element': _pre_k6, 'k7_header_delimits': _pre_k7}[o.fn]
+               'k6_instruction_element': _pre_k6, 'k7_header_delimits': _pre_k7, 'k8_rendered_report': _pre_k8}[o.fn]
         witnessed = False
         for args in itertools.islice(_enumerate_inputs(o, per_ob), per_ob):
             if not pre(*args):
